@@ -92,11 +92,17 @@ func genValFor(r *rand.Rand, ty string, flavour string) Val {
 	}
 	switch ty {
 	case "int":
+		if chance(r, 0.05) { // an integer no int64 can hold: the conversion must fail, not clamp
+			return StrVal(pick(r, []string{"9223372036854775808", "-9223372036854775809", "1000000000000000000000000000000"}))
+		}
 		if chance(r, 0.25) {
 			return StrVal(itoa(int64(r.Intn(20) - 5))) // numeric string
 		}
 		return NumVal(int64(r.Intn(20) - 5))
 	case "uint":
+		if chance(r, 0.05) { // beyond uint64: the conversion must fail, not clamp
+			return StrVal(pick(r, []string{"18446744073709551616", "1000000000000000000000000000000"}))
+		}
 		if chance(r, 0.2) {
 			return NumVal(int64(-1 - r.Intn(3))) // negative: must fail
 		}
